@@ -46,7 +46,14 @@ def comp_key(ex, e):
     same = [n for n in ast.walk(ex.spec.node) if isinstance(n, (ast.ListComp, ast.SetComp, ast.DictComp, ast.GeneratorExp)) and hdr(n) == hdr(e)]
     same.sort(key=lambda n: (n.lineno, n.col_offset))
     k = same.index(e)
-    return hdr(e) if k == 0 else f'{hdr(e)}#{k}'
+    # the invariant of a comprehension describes the items it produces: it belongs to this element expression and this filter only
+    # (a comprehension with the same header but another element is a different loop: no invariant, cut trivially, decided 'undecided')
+    import hashlib
+    shape = ast.unparse(e.key) + ':' + ast.unparse(e.value) if isinstance(e, ast.DictComp) else ast.unparse(e.elt)
+    shape += '|' + '|'.join(ast.unparse(t) for t in e.generators[0].ifs)
+    h = hashlib.sha1(shape.encode()).hexdigest()[:6]
+    base = hdr(e).replace('comp:', f'comp[{h}]:', 1)
+    return base if k == 0 else f'{base}#{k}'
 
 
 def _over_symbolic_set(ex, e, g, st, it):
